@@ -1135,6 +1135,10 @@ class Tr:
             else:
                 v = self.expr(retexpr, st, sc)
             k = out[1]
+            if k == "opaque":
+                if v.kind != "opaque":
+                    raise Unsupported("the result is not the result of the external call")
+                return "pure " + v.lean
             if k == "bytes":
                 return "pure " + paren(self.bytes_term(self.unopt(v)))
             if k.startswith("opt:"):
@@ -1402,6 +1406,11 @@ SPECS = [
                     "Response.validate": ("responseValidate", ["bytes"], "unit", True),
                     "cls.validate": ("responseValidate", ["bytes"], "unit", True)},
          model="Model.constructDispatch frame"),
+    dict(name="constructOuter", file=CMD, func="Response.construct", inputs=[("frame", "bytes")],
+         out=("value", "opaque"), rtype="R (Int × Bytes)", effectful=True, native_bytes=True,
+         externals={"cls._construct": ("constructDispatch", ["bytes"], "opaque", True),
+                    "Response._construct": ("constructDispatch", ["bytes"], "opaque", True)},
+         model="Py.mapErr \"IndexError\" .invalidResponse (Model.constructDispatch frame)"),
     dict(name="nextMessageId", file=CMD, func="Command._next_message_id", inputs=[("cls._message_id", "int")],
          class_state=("_message_id",), out=("value_state", "cls._message_id"), rtype="Int × Int",
          model="(((Model.nextMessageId _message_id.toNat).2.toNat : Int), ((Model.nextMessageId _message_id.toNat).1 : Int))"),
